@@ -342,6 +342,17 @@ def api_extras(ctx):
         if outs[0][1] != outs[1][1]:
             ctx.fail('preload-vs-load:address-tag-11', 'preload_address and load_address disagree on an unsupported address constructor (one raises, the other returns)',
                      {'bits': '11' + tail}, outs[1], outs[0])
+    # store_bit of a TvmBitarray holding more / fewer than one bit: exactly its first bit (c06_src_store_bits_forms)
+    from pytoniq_core.boc.tvm_bitarray import TvmBitarray
+    from bitarray import bitarray
+    for arg in ('10', '01', '111', ''):
+        ctx.case(('bit-tvm', arg))
+        try:
+            got = begin_cell().store_bit(TvmBitarray(1023, bitarray(arg))).bits.to01()
+        except Exception as e:
+            got = type(e).__name__
+        if got != arg[:1]:
+            ctx.fail('bits:bit', f'store_bit(TvmBitarray({arg!r})) did not store exactly the first bit', {'form': 'tvm', 'arg': arg}, got, arg[:1])
     for s in ['', 'a', 'héllo wörld', '日本語' * 10, 'x' * 127, 'é' * 63]:
         ctx.case(('string', s))
         try:
@@ -537,6 +548,8 @@ def replay(ctx, payload):
             S._BIT_FORM[0] = form
             S._BITS_FORM[0] = form
             check_roundtrip(ctx, dag, G.lib_build(dag), inp['ops'], inp.get('tag', 'replay'))
+    elif 'form' in inp or 'addr' in inp or 's' in inp or 'bits' in inp or 'n' in inp:
+        api_extras(ctx)
     elif 'len' in inp and 'prefill' in inp and 'refs' in inp:
         snake_refs(ctx, int(inp['len']), int(inp['prefill']), int(inp['refs']))
     elif 'len' in inp and 'prefill' in inp:
